@@ -33,11 +33,15 @@ def new_group_block(prog, rep, rule):
              and unparse(s.value) == f"self.factor.eval_new_data({data})"]
     obl(rep, f, first[0] if first else f.node, rule, len(first) == 1, "Ji is the factor's indicator matrix evaluated on the new frame")
     J = first[0].targets[0].id if len(first) == 1 else "Ji"
-    masks = [s for s in walk_local(f.node) if isinstance(s, ast.Assign) and unparse(s.value) in (f"~{J}.any(axis=1)", f"{J}.sum(axis=1) == 0", f"~{J}.any(1)")]
+    # NOT `J.sum(axis=1) == 0`: the columns of a grouping factor need not be 0/1 indicators (a sum-coded factor has rows such
+    # as [1, -1]), so a zero row sum does not mean "no group"
+    masks = [s for s in walk_local(f.node) if isinstance(s, ast.Assign) and unparse(s.value) in (
+        f"~{J}.any(axis=1)", f"~{J}.any(1)", f"~np.any({J}, axis=1)", f"np.logical_not({J}.any(axis=1))", f"({J} == 0).all(axis=1)", f"np.all({J} == 0, axis=1)",
+        f"~{J}.astype(bool).any(axis=1)")]
     ok = len(masks) == 1
     mv = unparse(masks[0].targets[0]) if ok else "all_zeros"
     obl(rep, f, masks[0] if masks else f.node, rule, ok, "a row with all-zero indicators marks an unseen group (row-wise test, axis=1)", "",
-        f"the unseen-group mask is not `~{J}.any(axis=1)`")
+        f"the unseen-group mask is not `~{J}.any(axis=1)` (a row without any non-zero entry)")
     conds = [i for i in walk_local(f.node) if isinstance(i, ast.If) and unparse(i.test) in (f"{mv}.any()", f"np.any({mv})", f"{mv}.sum() > 0")]
     ok = len(conds) == 1
     obl(rep, f, conds[0] if conds else f.node, rule, ok, "the extra block is added only when some row belongs to an unseen group", "",
